@@ -435,6 +435,47 @@ func (e *Enc) lookupLocal(fr *Frame, name string, b *ssa.BasicBlock, idx int, ph
 		}
 		return CE{}, false
 	}
+	if strings.HasPrefix(name, "$index") && len(name) > len("$index") {
+		// $index<k>: the hidden range index of (enclosing) loop k
+		var k int
+		if _, err := fmt.Sscanf(name[len("$index"):], "%d", &k); err == nil {
+			for h, li := range fr.loops {
+				if li.Ordinal != k {
+					continue
+				}
+				for _, ins := range h.Instrs {
+					if p, ok := ins.(*ssa.Phi); ok && p.Comment == "rangeindex" {
+						return phiVal(p)
+					}
+				}
+			}
+		}
+		return CE{}, false
+	}
+	if strings.HasPrefix(name, "$range") && len(name) > len("$range") {
+		// $range<k>: what rangeindex loop k ranges over (an enclosing loop's slice)
+		var k int
+		if _, err := fmt.Sscanf(name[len("$range"):], "%d", &k); err == nil {
+			for h, li := range fr.loops {
+				if li.Ordinal != k {
+					continue
+				}
+				for _, ins := range h.Instrs {
+					bo, ok := ins.(*ssa.BinOp)
+					if !ok || bo.Op != token.LSS {
+						continue
+					}
+					if call, ok := bo.Y.(*ssa.Call); ok {
+						if bi, ok := call.Call.Value.(*ssa.Builtin); ok && bi.Name() == "len" && len(call.Call.Args) == 1 {
+							v := e.val(fr, call.Call.Args[0])
+							return CE{T: v.T, Typ: call.Call.Args[0].Type()}, true
+						}
+					}
+				}
+			}
+		}
+		return CE{}, false
+	}
 	if name == "$range" {
 		// the slice a "for i := range s" loop ranges over (it may have no source
 		// name, e.g. "range f(x)"): the operand of the len() the header compares
